@@ -27,6 +27,9 @@ def swarm(rng, focus, tier='quick'):
     pool = list(INT_NODES) if rng.random() < 0.7 else list(STR_NODES)
     if focus in ('C09', 'C10', 'C18', 'C11') and rng.random() < 0.25:
         pool = list(STR_NODES_X)
+    if focus in ('C12', 'C13', 'C15', 'C20', 'C02') and rng.random() < 0.3:
+        # ids whose text is a prefix of another id's text (occurrence names are built from str(id))
+        pool = [1, 12, 2, 21, 11, 0] if isinstance(pool[0], int) else ['a', 'ab', 'b', 'ba', 'aa', 'c']
     if focus in ('C01', 'C04', 'C05', 'C07', 'C08') and rng.random() < 0.12:
         pool = list(TUPLE_NODES)                    # any hashable id: tuples (they become lists in JSON replay files)
     cfg = {
